@@ -29,7 +29,44 @@ let show = function
   | RFn n -> "F" ^ string_of_z n
   | RTypeError -> "TE" | RAttrError -> "AE" | RInvalid -> "INV"
 let out rs = if rs = [] then "-" else String.concat "," (List.map show rs)
+(* vtable part.  chain: items `id,decl` joined by ';' ; decl = n | c<k>[f] | p<k>[f]  (cdef / cpdef with k optional
+   arguments, f = final); vd: decls joined by ';' ; extra op  CT:t:o  (C call through static type t)
+   commands:  vt <askip> <chain> | vcall <askip> <chain> <t> | vref <chain> <t> | site <chain> <t>
+              | vcy <askip> <cached> <fx> <hier> <vd> <op>... | vpy <hier> <vd> <op>... | vinfo <hier> <vd> *)
+let parse_decl d =
+  if d = "n" then VNone else
+  let fin = d.[String.length d - 1] = 'f' in
+  let body = if fin then String.sub d 0 (String.length d - 1) else d in
+  VDecl ((body.[0] = 'p'), nat (String.sub body 1 (String.length body - 1)), fin)
+let parse_chain s = List.map (fun it -> match String.split_on_char ',' it with
+  | [i; d] -> (nat i, parse_decl d) | _ -> failwith "chain") (String.split_on_char ';' s)
+let parse_vd s = List.map parse_decl (String.split_on_char ';' s)
+let parse_vop s = match String.split_on_char ':' s with
+  | ["CT"; t; o] -> VCallT (nat t, nat o)
+  | _ -> VBase (parse_op s)
+let si n = string_of_int (int_of_nat n)
+let show_sk = function SkNone -> "-" | SkFwd -> "fwd" | SkConst b -> if b then "1" else "0"
+let show_oa = function OpNone -> "-" | OpFwd -> "fwd" | OpNull -> "NULL"
+let show_ent = function EImpl k -> "I" ^ si k | EAdapt (k, sk, oa) -> "A" ^ si k ^ "/" ^ show_sk sk ^ "/" ^ show_oa oa
+let show_slot s = String.concat ":" [si s.s_cls; (if s.s_ov then "p" else "c"); si s.s_nopt; (if s.s_fin then "f" else "-"); show_ent s.s_ent]
+let show_vres = function None -> "-" | Some (VBody k) -> "B" ^ si k | Some (VEntry (k, sk)) -> "E" ^ si k ^ "/" ^ (if sk then "1" else "0")
 let handle = function
+  | ["vt"; a; ch] -> let vt = build (bool_of_string a) (parse_chain ch) [] in
+      if vt = [] then "-" else String.concat " " (List.rev_map show_slot vt)
+  | ["vcall"; a; ch; t] -> show_vres (vt_call (bool_of_string a) (parse_chain ch) (nat t))
+  | ["vref"; ch; t] -> show_vres (vt_ref (parse_chain ch) (nat t))
+  | ["site"; ch; t] -> (match split_at (nat t) (parse_chain ch) with
+      | Some (pre, _) -> (match build false pre [] with s :: _ -> show_slot s | [] -> "-")
+      | None -> "-")
+  | ["wfchain"; ch] -> string_of_bool (wf_chain (parse_chain ch) None)
+  | "vcy" :: a :: c :: fx :: hs :: vd :: ops ->
+      let h = parse_hier hs in
+      out (vrun_cy (bool_of_string a) (bool_of_string c) (bool_of_string fx) h (parse_vd vd) (w0 h) (List.map parse_vop ops))
+  | "vpy" :: hs :: vd :: ops ->
+      let h = parse_hier hs in out (vrun_py h (parse_vd vd) (p0 h) (List.map parse_vop ops))
+  | ["vinfo"; hs; vd] ->
+      let h = parse_hier hs in
+      Printf.sprintf "wf=%s wfvt=%s noextdef=%s" (string_of_bool (wf_hier h)) (string_of_bool (wf_vt h (parse_vd vd))) (string_of_bool (no_ext_def h))
   | "cy" :: c :: fx :: hs :: ops ->
       let h = parse_hier hs in
       out (run_cy (bool_of_string c) (bool_of_string fx) h (w0 h) (List.map parse_op ops))
